@@ -739,6 +739,8 @@ class ChannelSpec(ByteSpec):
 
 class VolumeAdjustmentSpec(Spec):
     def read(self, header, frame, data):
+        if len(data) < 2:
+            raise SpecError("not enough data")
         value, = unpack('>h', data[0:2])
         return value / 512.0, data[2:]
 
